@@ -562,6 +562,19 @@ Proof. intros ins H. rewrite (lower_correct p in_gr ins). exact (case_ok ins H).
 Eval vm_compute in (length m).
 """
 
+# programs with run-time durations: the all-programs theorem has an assumption on the duration input, which
+# the (finite) case alphabet satisfies - checked in the kernel by alpha_ok
+LOW_DERIVED_DUR = LOW_HEAD + """Example alpha_ok : forallb (fun i => okdb true DS (in_bits i)) alphabet = true.
+Proof. vm_cast_no_check (eq_refl true). Qed.
+Theorem case_low : forall ins, admissible (ref_step p) alphabet assume rinit ins ->
+  traceA (sstep d false) (power_up_s d) ins = traceB (mstepZ (lower p)) minitZ ins.
+Proof.
+  intros ins H. rewrite (lower_correct_dur_alphabet DS p alphabet in_gr alpha_ok (ref_step p) assume rinit ins H).
+  exact (case_ok ins H).
+Qed.
+Eval vm_compute in (length m).
+"""
+
 DIAG_LOW = """Definition verdict_low := Eval vm_compute in (rcheck_s_bfs d false (mstepZ m) alphabet assumeZ 400000 minitZ).
 Eval vm_compute in verdict_low.
 Eval vm_compute in (match verdict_low with
@@ -680,8 +693,9 @@ def make_case(ck, name, prog, vhdl, count=False, low=None):
     with open(path, "w") as f:
         f.write(CASE_TMPL.format(header=common.COQ_HEADER, design=term, prog=block_coq(prog), cands=cands,
                                  count=COUNT if count else "",
-                                low={None: "", "direct": LOW_DIRECT, "derived": LOW_DERIVED}[low].replace(
-                                    "GRAMMAR", grammar_of(prog) or "in_grammar")))
+                                low={None: "", "direct": LOW_DIRECT, "derived": LOW_DERIVED, "derived_dur": LOW_DERIVED_DUR}[low]
+                                .replace("GRAMMAR", grammar_of(prog) or "in_grammar")
+                                .replace("DS", (grammar_of(prog) or "").split(" ")[-1])))
     return path
 
 
@@ -762,6 +776,10 @@ def run_programs(ck, progs, what="emitted state machine and coroutine semantics 
             # which exercises the all-programs theorem on a concrete in_grammar proof
             direct = ck.tier != "quick" or not name.startswith("rand") or n_gram % 4 != 3 or gram != "in_grammar"
             mode = "direct" if direct else "derived"
+            if gram != "in_grammar" and ck.tier == "quick":
+                # run-time durations: the product exploration over the duration alphabet is the long pole of the
+                # quick tier; quick = composition with the all-programs theorem, thorough = exploration
+                mode = "derived_dur"
             n_gram += 1
         try:
             path = make_case(ck, name, prog, r["vhdl"], count=(len(cases) % 10 == 0), low=mode)
